@@ -2,31 +2,32 @@
 #include "c15.h"
 
 /* ---- helpers, lifted; the decoders call the lifted text directly (loop free) ---- */
-#if !defined(U_DISPATCH)
+/* (each //@FUNC block is self-contained inside one #if branch: the native replay wraps contracts textually) */
 #ifdef U_PIM
 //@FUNC
-#endif
 bool pu_in_process_mask(bool use_process_mask, struct topo *t, size_t num_core, size_t num_pu)
-#ifdef U_PIM
 /* true for every PU when the process mask is ignored, else exactly "PU (num_core, num_pu) intersects the process mask" */
 __CPROVER_ensures(!use_process_mask ==> __CPROVER_return_value)
 __CPROVER_ensures((use_process_mask && num_core == g_vc && num_pu == g_vp) ==> __CPROVER_return_value == g_v_inmask)
 __CPROVER_assigns(g_invalid_pair)
-#endif
 //@LIFT pim
+#else
+bool pu_in_process_mask(bool use_process_mask, struct topo *t, size_t num_core, size_t num_pu)
+//@LIFT pim
+#endif
 
 #ifdef U_CNT
 //@FUNC
-#endif
 void check_num_threads(bool use_process_mask, struct topo *t, size_t num_threads, struct error_code *ec)
-#ifdef U_CNT
 __CPROVER_requires(!vx_exc && g_errors == 0 && ec->value == pika_error_success)
 /* "a request that cannot be satisfied (more threads than PUs in the mask) is rejected with an error": error iff
  * num_threads exceeds the PUs of the effective mask (process mask on) / the hardware concurrency (off) */
 __CPROVER_ensures(ERROR_VISIBLE(ec) == (num_threads > (use_process_mask ? g_proc_count : g_hw_conc)))
 __CPROVER_ensures((g_errors != 0) == ERROR_VISIBLE(ec))
 __CPROVER_assigns(ERR_FRAME)
-#endif
+//@LIFT cnt
+#else
+void check_num_threads(bool use_process_mask, struct topo *t, size_t num_threads, struct error_code *ec)
 //@LIFT cnt
 #endif
 
@@ -191,11 +192,14 @@ void harness(void)
 #endif
   size_t used_cores = nondet_size(), max_cores = nondet_size();
   DECODE(&topo, &aff, used_cores, max_cores, &npu, upm, ec);
+#ifndef VX_FEW_REACH
   if (vx_exc) VX_REACH("thrown");
   if (!vx_exc && ec->value != pika_error_success) VX_REACH("error_code_set");
   if (!ERROR_VISIBLE(ec)) VX_REACH("accepted");
-  if (g_k_mask.kind == MK_PU) VX_REACH("k_assigned");
   if (MASK_IS(g_k_mask, g_vc, g_vp) && upm && g_k_cell) VX_REACH("k_on_victim_pair_with_mask");
   if (MASK_IS(g_k_mask, g_vc, g_vp) && !upm && used_cores != 0) VX_REACH("k_on_victim_pair_used_cores");
+#endif
+  /* (units run with a non-incremental SAT solver keep a single marker: every marker costs one more solver run) */
+  if (g_k_mask.kind == MK_PU && !ERROR_VISIBLE(ec)) VX_REACH("k_assigned");
 #endif
 }
